@@ -7,7 +7,7 @@ from ..nf import Rat, C
 from ..source import Unsupported, AnchorError
 from ..xlate import Interp, Obj, ListV, DictV, Raised, RankOrder
 from .common import same, show
-from .rxnfix import make_reaction, get_public
+from .rxnfix import make_reaction, get_public, set_public
 
 RX = 'pmutt.reaction'
 Z = '\x00'
@@ -49,6 +49,39 @@ def named_in_message(I, r, whole):
     return out
 
 
+def sides_match(I, back, sides, prec=C):
+    """the parsed reaction ``back`` read through its public attributes against the sides it was printed from:
+    sides = ((attribute, species objects, coefficients or None), ...); returns (ok, why)"""
+    for attr, objs, vals in sides:
+        got_o = get_public(I, back, attr)
+        got_s = get_public(I, back, attr + '_stoich')
+        if not vals:
+            if got_o is not None:
+                return False, '%s should be absent, got %s' % (attr, show(got_o, 60))
+            continue
+        if not (isinstance(got_o, ListV) and len(got_o) == len(objs) and
+                all(a is b for a, b in zip(got_o.items, objs))):
+            return False, '%s parsed as %s' % (attr, show(got_o, 80))
+        if not (isinstance(got_s, ListV) and len(got_s) == len(vals) and
+                all(isinstance(a, Rat) and a.eq(prec(b)) for a, b in zip(got_s.items, vals))):
+            return False, '%s coefficients parsed as %s, printed from %s' % (attr, show(got_s, 80), vals)
+    return True, ''
+
+
+def parser_hazards(run, I, label, module, fn):
+    """a regular expression of the parser whose match changes with the characters of a species name (names as the
+    property allows them: a letter first, then letters, digits, ( ) * _) reads part of that name as something else"""
+    seen = set()
+    for n_, pat, fld, what, spelled in I.re_hazards:
+        if (pat, what) in seen:
+            continue
+        seen.add((pat, what))
+        run.fail('REF.parse', 'Reaction.from_string', 'the outcome of a pattern depends on the spelling of a species name',
+                 '[%s] the pattern %r matches differently when a species name has %s (e.g. in %r): a part of the name '
+                 'is not read as the name' % (label, pat, what, spelled), module, fn, sig='pattern %s' % pat)
+    del I.re_hazards[:]
+
+
 def check(run, repo):
     run.explanation = (
         'Reaction.to_string/_write_reaction_state and Reaction.from_string/_parse_reaction/_parse_reaction_state are '
@@ -74,7 +107,7 @@ def check(run, repo):
            'pmutt.parse_formula')
     owner_ts, fn_ts = repo.find_method(ci, 'to_string')
     owner_fs, fn_fs = repo.find_method(ci, 'from_string')
-    n = 0
+    n = n_padded = 0
     delims = [('+', '='), ('+', '<=>'), ('.', '>>'), (' + ', ' = '), ('+', ' <=> '), (' & ', '->')]
     stoichs = [
         ([1, 1], [1], None),
@@ -108,6 +141,11 @@ def check(run, repo):
         txt = I.call_method(rxn, 'to_string', [], {'species_delimiter': sd, 'reaction_delimiter': rd,
                                                    'stoich_space': space, 'stoich_format': fmt})
         n += 1
+        calls = {(sd, rd)}
+        if run.tier == 'thorough':
+            calls |= {(sd.strip(), rd), (sd, rd.strip())}
+        calls = sorted(calls - {(sd.strip(), rd.strip())})
+        n_padded += len(calls)
         if isinstance(txt, Raised):
             run.fail('TABLE.print', 'Reaction.to_string', 'raises', '[%s] printing raises %s' % (label, txt.exc),
                      owner_ts.module, fn_ts)
@@ -132,25 +170,27 @@ def check(run, repo):
             return C(x)
         if any(isinstance(x, Fr) and x.denominator > 10 ** 6 for x in rs + ps + (ts or [])):
             label += ' [integer up to rounding noise]'
-        ok = True
-        why = ''
-        for attr, objs, vals in (('reactants', R_, rs), ('products', P_, ps), ('transition_state', T_, ts)):
-            got_o = get_public(I, back, attr)
-            got_s = get_public(I, back, attr + '_stoich')
-            if not vals:
-                if got_o is not None:
-                    ok, why = False, '%s should be absent, got %s' % (attr, show(got_o, 60))
-                continue
-            if not (isinstance(got_o, ListV) and len(got_o) == len(objs) and
-                    all(a is b for a, b in zip(got_o.items, objs))):
-                ok, why = False, '%s parsed as %s' % (attr, show(got_o, 80))
-            elif not (isinstance(got_s, ListV) and len(got_s) == len(vals) and
-                      all(isinstance(a, Rat) and a.eq(prec(b)) for a, b in zip(got_s.items, vals))):
-                ok, why = False, '%s coefficients parsed as %s, printed from %s' % (attr, show(got_s, 80), vals)
+        sides = (('reactants', R_, rs), ('products', P_, ps), ('transition_state', T_, ts))
+        ok, why = sides_match(I, back, sides, prec)
         run.check(ok, 'TABLE.roundtrip', 'Reaction.from_string', 'print->parse',
                   '[%s] printed %s; %s' % (label, show(txt, 160), why), owner_fs.module, fn_fs,
                   sample='[%s] %s parses back to the same reaction' % (label, show(txt, 120)) if n % 23 == 0 else None)
+        # the delimiters of the call written exactly as they were printed - blanks included - and each of the two
+        # trimmed on its own: 'A + B'.split(' + ') is as good a call as 'A + B'.split('+')
+        for k_call, (csd, crd) in enumerate(calls):
+            back2 = I.call_function(owner_fs.module, fn_fs, [], {'reaction_str': txt, 'species': DictV(dict(sp)),
+                                                               'species_delimiter': csd, 'reaction_delimiter': crd},
+                                    self_obj=ci, owner=owner_fs)
+            ok, why = (False, 'gives %s' % show(back2, 80)) if not isinstance(back2, Obj) else \
+                sides_match(I, back2, sides, prec)
+            run.check(ok, 'TABLE.roundtrip', 'Reaction.from_string', 'print->parse, delimiters of the call with blanks',
+                      '[%s] printed %s and parsed with species_delimiter=%r reaction_delimiter=%r; %s'
+                      % (label, show(txt, 160), csd, crd, why), owner_fs.module, fn_fs,
+                      sample='[%s] %s parsed with the delimiters %r/%r' % (label, show(txt, 100), csd, crd)
+                      if (n + k_call) % 41 == 0 else None)
+        parser_hazards(run, I, label, owner_fs.module, fn_fs)
     run.floor('print/parse cases', n, 60)
+    run.floor('print/parse cases with blank-padded delimiters in the call', n_padded, 80)
     # printed without its transition state, a reaction parses back to the same reactants and products and no
     # transition state
     for sd, rd in (('+', '='), (' & ', '->')):
@@ -180,7 +220,7 @@ def check(run, repo):
     owner_ck, fn_ck = repo.find_method(ck, 'from_string')
     run.fn(RX + '.ChemkinReaction.from_string')
     for (sd, rd), (rs, ps, ts) in itertools.product(
-            (('+', '='), (' & ', '->'), ('.', '>>'), ('+', '<=>')),
+            (('+', '='), (' & ', '->'), ('.', '>>'), ('+', '<=>'), (' + ', ' <=> ')),
             (([2, 12], [3], [1]), ([Fr(1, 2), 1], [Fr(5, 4), 10], None))):
         if '.' in sd and any(isinstance(x, Fr) for x in rs + ps):
             continue        # the known clash of '.' with decimal points is reported above
@@ -193,28 +233,23 @@ def check(run, repo):
         rxn = make_reaction(I, repo, ck, R_, [C(x) for x in rs], P_, [C(x) for x in ps],
                             T_ if ts else None, [C(x) for x in ts] if ts else None)
         txt = I.call_method(rxn, 'to_string', [], {'species_delimiter': sd, 'reaction_delimiter': rd})
-        back = None
-        if not isinstance(txt, Raised):
-            back = I.call_function(owner_ck.module, fn_ck, [], {'reaction_str': txt, 'species': DictV(dict(sp)),
-                                                                'species_delimiter': sd.strip(),
-                                                                'reaction_delimiter': rd.strip()},
-                                   self_obj=ck, owner=owner_ck)
-        ok = isinstance(back, Obj)
-        if ok:
-            for attr, objs, vals in (('reactants', R_, rs), ('products', P_, ps), ('transition_state', T_, ts)):
-                got_o, got_s = get_public(I, back, attr), get_public(I, back, attr + '_stoich')
-                if not vals:
-                    ok = ok and got_o is None
-                else:
-                    ok = ok and isinstance(got_o, ListV) and isinstance(got_s, ListV) and \
-                        len(got_o) == len(objs) and all(a is b for a, b in zip(got_o.items, objs)) and \
-                        len(got_s) == len(vals) and all(isinstance(a, Rat) and a.eq(C(b))
-                                                        for a, b in zip(got_s.items, vals))
-        run.check(ok, 'TABLE.roundtrip', 'ChemkinReaction.from_string',
-                  'print->parse delims=%r/%r stoich=%s|%s|%s' % (sd, rd, rs, ps, ts),
-                  'a Chemkin reaction printed as %s and parsed with the same delimiters gives %s'
-                  % (show(txt, 120), show(back.attrs if isinstance(back, Obj) else back, 160)), owner_ck.module, fn_ck,
-                  sample='ChemkinReaction print->parse delims=%r/%r' % (sd, rd) if ts else None)
+        for csd, crd in sorted({(sd.strip(), rd.strip()), (sd, rd)}):
+            back = None
+            if not isinstance(txt, Raised):
+                back = I.call_function(owner_ck.module, fn_ck, [], {'reaction_str': txt, 'species': DictV(dict(sp)),
+                                                                    'species_delimiter': csd, 'reaction_delimiter': crd},
+                                       self_obj=ck, owner=owner_ck)
+            ok = isinstance(back, Obj)
+            if ok:
+                ok = sides_match(I, back, (('reactants', R_, rs), ('products', P_, ps), ('transition_state', T_, ts)))[0]
+            run.check(ok, 'TABLE.roundtrip', 'ChemkinReaction.from_string',
+                      'print->parse delims=%r/%r stoich=%s|%s|%s' % (sd, rd, rs, ps, ts) +
+                      ('' if (csd, crd) == (sd.strip(), rd.strip()) else ', delimiters of the call with blanks'),
+                      'a Chemkin reaction printed as %s and parsed with species_delimiter=%r reaction_delimiter=%r gives %s'
+                      % (show(txt, 120), csd, crd, show(back.attrs if isinstance(back, Obj) else back, 160)),
+                      owner_ck.module, fn_ck,
+                      sample='ChemkinReaction print->parse delims=%r/%r' % (csd, crd) if ts else None)
+        parser_hazards(run, I, 'ChemkinReaction delims=%r/%r' % (sd, rd), owner_ck.module, fn_ck)
 
     # ---- parsing: repeated species, omitted/decimal/integer coefficients, blanks, unknown species ----------
     I = Interp(repo)
@@ -234,6 +269,16 @@ def check(run, repo):
          ([kA, kB], [Fr(25, 2), 10], [kB, kA], [Fr(401, 4), 205], None, None)),
         ('two species repeated alternately', A + '+' + B + '+' + A + '+3' + B + '=' + TSn + '=' + B + '+' + A + '+' + B,
          ([kA, kB], [2, 4], [kB, kA], [2, 1], [kT], [1])),
+        # a blank between coefficient and name is one more spelling of the same species
+        ('repeated species, a blank after the coefficient of the second', A + ' + 2 ' + A + ' = ' + B,
+         ([kA], [3], [kB], [1], None, None)),
+        ('repeated species, a blank after the coefficient of the first', '2 ' + A + '+' + A + '=' + B,
+         ([kA], [3], [kB], [1], None, None)),
+        ('repeated species with and without a blank after the coefficient, on every side',
+         '0.5  ' + A + ' + 1.5' + A + ' = 1.5 ' + TSn + ' + 0.5' + TSn + ' = 2 ' + B + ' + ' + B + '+1 ' + A + '+ 3' + A,
+         ([kA], [2], [kB, kA], [3, 4], [kT], [2])),
+        ('three spellings of one species', '2' + A + '+2 ' + A + '+' + A + ' +  0.25  ' + A + '=' + B,
+         ([kA], [Fr(21, 4)], [kB], [1], None, None)),
     ]
     for label, s_, want in cases:
         # through the public constructor: the parsed species are the objects of the dictionary
@@ -258,6 +303,7 @@ def check(run, repo):
         run.check(ok, 'REF.parse', 'Reaction.from_string', label,
                   '%s: %s parses to %s' % (label, show(s_, 120), show(r.attrs if isinstance(r, Obj) else r, 200)),
                   owner_fs.module, fn_fs, sample='%s: %s' % (label, show(s_, 100)))
+    parser_hazards(run, I, 'parse cases', owner_fs.module, fn_fs)
     # unknown species -> KeyError whose message names the species that was not found (and none that was found),
     # wherever it stands
     kY, kX = Z + 'Y', Z + 'X'
@@ -321,9 +367,81 @@ def check(run, repo):
     run.check(isinstance(r, Obj) and get_public(I, r, 'reactants').items[0] is sp[kA], 'REF.parse', 'Reaction.from_string',
               'species list', 'a list of species is not accepted (%s)' % show(r), owner_fs.module, fn_fs)
 
+    literal_names(run, repo, ci, owner_fs, fn_fs)
     ring_reader(run, repo, ci)
     balance(run, repo, ci)
     formulas(run, repo)
+
+
+# species names written out: every kind of character the property allows (letters, digits after the first character,
+# parentheses, asterisks, underscores), among them the beginnings that other notations of a number would claim - an
+# exponent (E1, e2, E2S, d3), a digit separator (_1), an imaginary unit (j), a hexadecimal/octal/binary prefix (x1, o7, b1)
+LITERAL_REACTIONS = [
+    (['E1', 'S'], [2, 1], ['E1S'], [Fr(3, 2)], None, None),
+    (['E2S'], [2], ['P', 'S'], [1, 2], ['TS_1'], [1]),
+    (['S', 'e2'], [1, Fr(1, 2)], ['P'], [1], None, None),
+    (['H2', 'O2'], [1, Fr(1, 2)], ['H2O'], [1], ['H2O_TS'], [1]),
+    (['e10', 'E5'], [10, Fr(5, 2)], ['d3', 'D2O'], [3, Fr(1, 4)], ['eTS*', 'E(S)'], [2, Fr(1, 2)]),
+    (['CO2', 'A(g)', '*'], [2, 3, Fr(5, 4)], ['X_1', 'CH3*', 'N2(S)', 'j'], [12, Fr(1, 2), 2, 4], None, None),
+    (['_1', 'x1'], [2, 3], ['o7', 'b1', 'inf', 'nan'], [2, 10, 3, Fr(1, 2)], ['L', 'l'], [3, 2]),
+]
+
+
+def literal_names(run, repo, ci, owner_fs, fn_fs):
+    """print->parse with concrete species names: the text goes through the regular expressions as it stands"""
+    n = 0
+    for (rn, rs, pn, ps, tn, ts), (sd, rd), space in itertools.product(
+            LITERAL_REACTIONS, (('+', '='), (' + ', ' <=> '), ('.', '>>'), (' & ', '->')), (False, True)):
+        if sd == ' & ' and run.tier != 'thorough':
+            continue
+        if sd == '.' and any(isinstance(x, Fr) for x in rs + ps + (ts or [])):
+            continue                # the known clash of '.' with decimal points is reported by the symbolic rows
+        I = Interp(repo)
+        sp = {nm: Obj(nm, attrs={'name': nm, 'elements': DictV({'A': C(1)})}) for nm in rn + pn + (tn or [])}
+        R_, P_, T_ = [sp[x] for x in rn], [sp[x] for x in pn], [sp[x] for x in tn or []]
+        rxn = make_reaction(I, repo, ci, R_, [C(x) for x in rs], P_, [C(x) for x in ps],
+                            T_ if tn else None, [C(x) for x in ts] if tn else None)
+        label = 'names=%s|%s|%s stoich=%s|%s|%s delims=%r/%r space=%s' % (
+            rn, pn, tn, [str(x) for x in rs], [str(x) for x in ps], [str(x) for x in ts or []], sd, rd, space)
+        txt = I.call_method(rxn, 'to_string', [], {'species_delimiter': sd, 'reaction_delimiter': rd,
+                                                   'stoich_space': space})
+        n += 1
+        sides = (('reactants', R_, rs), ('products', P_, ps), ('transition_state', T_, ts))
+        for csd, crd in sorted({(sd.strip(), rd.strip()), (sd, rd)}):
+            back = txt
+            if not isinstance(txt, Raised):
+                back = I.call_function(owner_fs.module, fn_fs, [], {'reaction_str': txt, 'species': DictV(dict(sp)),
+                                                                  'species_delimiter': csd, 'reaction_delimiter': crd},
+                                       self_obj=ci, owner=owner_fs)
+            ok, why = (False, 'gives %s' % show(back, 200)) if not isinstance(back, Obj) else sides_match(I, back, sides)
+            run.check(ok, 'TABLE.roundtrip', 'Reaction.from_string', 'print->parse, species names written out',
+                      '[%s] printed %s and parsed with species_delimiter=%r reaction_delimiter=%r; %s'
+                      % (label, show(txt, 160), csd, crd, why), owner_fs.module, fn_fs,
+                      sample='[%s] %s parses back to the same reaction' % (label, show(txt, 120)) if n % 11 == 0 else None)
+    run.floor('print/parse cases with species names written out', n, 30)
+    # strings as a user writes them: repeated species with and without a blank after the coefficient, odd blanks
+    I = Interp(repo)
+    sp = {nm: Obj(nm, attrs={'name': nm, 'elements': DictV({'A': C(1)})})
+          for nm in ('H2', 'O2', 'H2O', 'H2O_TS', 'E1', 'e2', 'E2S', 'E1S', 'S', 'P')}
+    for s_, want in (
+            ('H2+2 H2=H2O', (['H2'], [3], ['H2O'], [1], None, None)),
+            ('H2 + 0.5 O2 + 1.5 H2 + 0.75O2 = H2O_TS = 2.5 H2O', (['H2', 'O2'], [Fr(5, 2), Fr(5, 4)], ['H2O'], [Fr(5, 2)],
+                                                                ['H2O_TS'], [1])),
+            ('2 H2O=1.5 H2O_TS + 0.5H2O_TS=H2O + 1 H2O', (['H2O'], [2], ['H2O'], [2], ['H2O_TS'], [2])),
+            ('2E1+S=1.50E1S', (['E1', 'S'], [2, 1], ['E1S'], [Fr(3, 2)], None, None)),
+            ('S+0.50e2=P', (['S', 'e2'], [1, Fr(1, 2)], ['P'], [1], None, None)),
+            ('2E2S + 3 E2S  =  P+2S+ S', (['E2S'], [5], ['P', 'S'], [1, 3], None, None)),
+            (' 10E1 + 0.25 e2=E2S=2.5 P ', (['E1', 'e2'], [10, Fr(1, 4)], ['P'], [Fr(5, 2)], ['E2S'], [1]))):
+        r = I.call_function(owner_fs.module, fn_fs, [], {'reaction_str': s_, 'species': DictV(dict(sp))},
+                            self_obj=ci, owner=owner_fs)
+        ok = isinstance(r, Obj)
+        if ok:
+            ok = sides_match(I, r, (('reactants', [sp[x] for x in want[0]], want[1]),
+                                    ('products', [sp[x] for x in want[2]], want[3]),
+                                    ('transition_state', [sp[x] for x in want[4] or []], want[5])))[0]
+        run.check(ok, 'REF.parse', 'Reaction.from_string', 'written out: %s' % s_,
+                  '%r must parse to %s, got %s' % (s_, want, show(r.attrs if isinstance(r, Obj) else r, 200)),
+                  owner_fs.module, fn_fs, sample='%r parses to %s' % (s_, want))
 
 
 def ring_reader(run, repo, ci):
@@ -376,10 +494,25 @@ def ring_reader(run, repo, ci):
 
 def balance(run, repo, ci):
     owner, fn = repo.find_method(ci, 'check_element_balance')
-    for case, ts_mode in itertools.product(('balanced', 'products off by one', 'element missing in products',
-                                            'element only in products'),
-                                           (None, 'balanced', 'unbalanced', 'element only in transition state',
-                                            'element missing in transition state')):
+    balance_written_out(run, repo, ci, owner, fn)
+    balance_twice(run, repo, ci, owner, fn)
+    offsets = {'products off by one': 1, 'products off by a thousandth': Fr(1, 1000),
+               'products off by a millionth': Fr(-1, 10 ** 6), 'unbalanced': -1,
+               'transition state off by a thousandth': Fr(-1, 1000),
+               'transition state off by a millionth': Fr(1, 10 ** 6)}
+    balanced_cases = ('balanced',)
+    balanced_ts = (None, 'balanced')
+    if counter_model_drops_zero(repo):
+        # an element listed with the count 0 (a spreadsheet column) is an element that is not there
+        balanced_cases += ('a reactant lists an element with the count zero', 'the product lists an element with the count zero')
+        balanced_ts += ('the transition state lists an element with the count zero',)
+    for case, ts_mode in itertools.product(balanced_cases[:1] + ('products off by one', 'products off by a thousandth',
+                                                                'products off by a millionth', 'element missing in products',
+                                                                'element only in products') + balanced_cases[1:],
+                                           balanced_ts[:2] + ('unbalanced', 'transition state off by a thousandth',
+                                                              'transition state off by a millionth',
+                                                              'element only in transition state',
+                                                              'element missing in transition state') + balanced_ts[2:]):
         I = Interp(repo)
         # the coefficients and compositions are generic numbers: totals that are not identically equal are unequal
         I.generic_point = True
@@ -388,36 +521,152 @@ def balance(run, repo, ci):
         a1, a2, b1 = D.sym('a1'), D.sym('a2'), D.sym('b1')
         r1 = Obj('r1', attrs={'elements': DictV({'A': a1, 'B': b1})})
         r2 = Obj('r2', attrs={'elements': DictV({'A': a2})})
+        if case == 'a reactant lists an element with the count zero':
+            r2.attrs['elements'] = DictV({'Z': C(0), 'A': a2, 'Y': C(0)})
         totA = n1 * a1 + n2 * a2
         totB = n1 * b1
         pA = totA / n3
-        if case == 'products off by one':
-            pA = (totA + 1) / n3
+        if case in offsets:
+            pA = (totA + C(offsets[case])) / n3
         pel = {'A': pA, 'B': totB / n3}
         if case == 'element missing in products':
             del pel['B']
         if case == 'element only in products':
             pel['E'] = D.sym('e1')
+        if case == 'the product lists an element with the count zero':
+            pel['Z'] = C(0)
         p1 = Obj('p1', attrs={'elements': DictV(pel)})
         t_side = None
         if ts_mode:
-            tA = (totA - 1) / n4 if ts_mode == 'unbalanced' else totA / n4
+            tA = (totA + C(offsets.get(ts_mode, 0))) / n4
             tel = {'A': tA, 'B': totB / n4}
             if ts_mode == 'element only in transition state':
                 tel['E'] = D.sym('e2')
             if ts_mode == 'element missing in transition state':
                 del tel['B']
+            if ts_mode == 'the transition state lists an element with the count zero':
+                tel['Z'] = C(0)
             t1 = Obj('t1', attrs={'elements': DictV(tel)})
             t_side = [t1]
         rxn = make_reaction(I, repo, ci, [r1, r2], [n1, n2], [p1], [n3], t_side, [n4] if t_side else None)
         r = I.call_method(rxn, 'check_element_balance', [], {})
-        should_raise = case != 'balanced' or ts_mode not in (None, 'balanced')
+        should_raise = case not in balanced_cases or ts_mode not in balanced_ts
         run.check(isinstance(r, Raised) == should_raise and (not should_raise or r.exc == 'ValueError'),
                   'REF.balance', 'Reaction.check_element_balance', '%s / TS %s' % (case, ts_mode),
                   'reaction (%s, transition state %s) must %s; got %s'
                   % (case, ts_mode, 'be refused with ValueError' if should_raise else 'be accepted', show(r)),
                   owner.module, fn, sample='balance: %s / TS %s -> %s' % (case, ts_mode,
                                                                           'ValueError' if should_raise else 'accepted'))
+
+
+def counter_model_drops_zero(repo):
+    """collections.Counter: a + b keeps positive totals only. Whether the interpreter's model of Counter does that is
+    asked of the model itself (not of the code under analysis); until it does, compositions that list an element with
+    the count 0 cannot be told from a plain dict: the instances that need it are not run and are listed as undecided"""
+    from ..xlate import CounterV
+    I = Interp(repo)
+    a, b = CounterV(), CounterV()
+    a.d['X'] = C(0)
+    b.d['Y'] = C(2)
+    try:
+        out = I.binop('+', a, b)
+    except Unsupported:
+        return False
+    return isinstance(out, CounterV) and set(out.d) == {'Y'}
+
+
+# element compositions written out (counts as read_excel stores them: every elements.X column, a 0 included)
+FORMULAS = {'H2': {'H': 2}, 'O2': {'O': 2}, 'H2O': {'H': 2, 'O': 1}, 'H2O_TS': {'H': 2, 'O': 1}, 'OH': {'O': 1, 'H': 1},
+            'H': {'H': 1}, 'C3H6': {'C': 3, 'H': 6}, 'CH2': {'C': 1, 'H': 2},
+            'H2 (all columns)': {'C': 0, 'H': 2, 'O': 0}, 'H2O (all columns)': {'C': 0, 'H': 2, 'O': 1, 'N': 0}}
+BALANCE_WRITTEN_OUT = [
+    # (reactants, products, transition state, balanced?)
+    ((('H2', 1), ('O2', Fr(1, 2))), (('H2O', 1),), None, True),
+    ((('H2', 1), ('O2', Fr(1, 2))), (('H2O', 1),), (('H2O_TS', 1),), True),
+    ((('H2', Fr(1, 2)), ('OH', 1)), (('H2O', 1),), (('H2O_TS', 1),), True),
+    ((('C3H6', Fr(1, 3)),), (('CH2', 1),), None, True),
+    ((('H2', 1), ('O2', 1)), (('H2O', 1),), None, False),
+    ((('H2', 1),), (('H', 1),), None, False),
+    # off by less than the two decimals a coefficient is usually written with, and by less than a part in 10^5
+    ((('H2', 1), ('O2', Fr(1, 2))), (('H2O', Fr('1.004')),), None, False),
+    ((('C3H6', Fr('0.333')),), (('CH2', 1),), None, False),
+    ((('H2', 1), ('O2', Fr('0.497'))), (('H2O', 1),), None, False),
+    ((('H2', 1), ('O2', Fr(1, 2))), (('H2O', 1),), (('H2O_TS', Fr('0.998')),), False),
+    ((('C3H6', Fr('0.333333')),), (('CH2', 1),), None, False),
+    ((('H2', 1), ('O2', Fr(1, 2))), (('H2O', 1),), (('H2O_TS', Fr('1.000002')),), False),
+    ((('H2', 1000), ('O2', 500)), (('H2O', Fr('1000.001')),), None, False),
+    # an element listed with the count 0 is an element that is not there
+    ((('H2 (all columns)', 1),), (('H', 2),), None, True),
+    ((('H2 (all columns)', 1), ('O2', Fr(1, 2))), (('H2O', 1),), None, True),
+    ((('H2', 1), ('O2', Fr(1, 2))), (('H2O (all columns)', 1),), None, True),
+    ((('H2', Fr(1, 2)), ('OH', 1)), (('H2O', 1),), (('H2O (all columns)', 1),), True),
+    ((('H2 (all columns)', 1),), (('H', 1),), None, False),
+]
+
+
+def balance_written_out(run, repo, ci, owner, fn):
+    n = 0
+    drops = counter_model_drops_zero(repo)
+    if drops and ZERO_COUNT_MUTANT not in MUTANTS:
+        MUTANTS.append(ZERO_COUNT_MUTANT)
+    for rs, ps, ts, balanced in BALANCE_WRITTEN_OUT:
+        names = [x for x, _ in rs + ps + (ts or ())]
+        if any('all columns' in x for x in names) and not drops:
+            continue
+        I = Interp(repo)
+        mk = lambda side: [Obj(x, attrs={'name': x, 'elements': DictV({k: C(v) for k, v in FORMULAS[x].items()})})
+                           for x, _ in side]
+        rxn = make_reaction(I, repo, ci, mk(rs), [C(v) for _, v in rs], mk(ps), [C(v) for _, v in ps],
+                            mk(ts) if ts else None, [C(v) for _, v in ts] if ts else None)
+        r = I.call_method(rxn, 'check_element_balance', [], {})
+        text = ' = '.join(' + '.join('%s %s' % (float(v), x) for x, v in side) for side in (rs, ts, ps) if side)
+        n += 1
+        run.check((r is None) if balanced else (isinstance(r, Raised) and r.exc == 'ValueError'),
+                  'REF.balance', 'Reaction.check_element_balance', 'written out: %s' % text,
+                  '%s (compositions %s) must be %s; got %s'
+                  % (text, {x: FORMULAS[x] for x in names}, 'accepted' if balanced else 'refused with ValueError', show(r)),
+                  owner.module, fn, sample='balance: %s -> %s' % (text, 'accepted' if balanced else 'ValueError'))
+    run.floor('balance cases with compositions written out', n, 13)
+    if not drops:
+        run.undecided.append('compositions that list an element with the count 0 (the model of collections.Counter '
+                             'does not drop totals that are zero)')
+
+
+def balance_twice(run, repo, ci, owner, fn):
+    """the check looks at the reaction as it is now: nothing is remembered from an earlier call, on this object or
+    another (H2 + 0.5 O2 = H2O and H2 = H with their compositions written out)"""
+    def fresh(I, unbalanced=False):
+        mk = lambda *names: [Obj(x, attrs={'name': x, 'elements': DictV({k: C(v) for k, v in FORMULAS[x].items()})})
+                             for x in names]
+        if unbalanced:
+            return make_reaction(I, repo, ci, mk('H2'), [C(1)], mk('H'), [C(1)], None, None), C(1)
+        return make_reaction(I, repo, ci, mk('H2', 'O2'), [C(1), C(Fr(1, 2))], mk('H2O'), [C(1)], None, None), C(1)
+
+    def verdict(r):
+        return 'accepted' if r is None else 'refused (%s)' % r.exc if isinstance(r, Raised) else show(r)
+    for first in ('balanced', 'unbalanced'):
+        I = Interp(repo)
+        rxn, n3 = fresh(I, unbalanced=(first == 'unbalanced'))
+        got = [verdict(I.call_method(rxn, 'check_element_balance', [], {}))]
+        got.append(verdict(I.call_method(rxn, 'check_element_balance', [], {})))
+        # the products' coefficient doubled through the public attribute
+        set_public(I, rxn, 'products_stoich', ListV([n3 * 2]))
+        got.append(verdict(I.call_method(rxn, 'check_element_balance', [], {})))
+        set_public(I, rxn, 'products_stoich', ListV([n3]))
+        got.append(verdict(I.call_method(rxn, 'check_element_balance', [], {})))
+        # a second reaction of the other kind, then the first again
+        other, _ = fresh(I, unbalanced=(first == 'balanced'))
+        got.append(verdict(I.call_method(other, 'check_element_balance', [], {})))
+        got.append(verdict(I.call_method(rxn, 'check_element_balance', [], {})))
+        a_, r_ = 'accepted', 'refused (ValueError)'
+        # H2 + 0.5 O2 = 2 H2O is unbalanced, H2 = 2 H is balanced
+        want = [a_, a_, r_, a_, r_, a_] if first == 'balanced' else [r_, r_, a_, r_, a_, r_]
+        run.check(got == want, 'EFFECT.balance-state', 'Reaction.check_element_balance',
+                  'called again after a change, %s first' % first,
+                  'a reaction (%s) checked, checked again, checked with the coefficient of its product doubled, with the '
+                  'coefficient restored, then a second reaction (%s), then the first again: expected %s, got %s'
+                  % (first, 'unbalanced' if first == 'balanced' else 'balanced', want, got), owner.module, fn,
+                  sample='balance: %s reaction checked again after changes: %s' % (first, got))
 
 
 def formulas(run, repo):
@@ -455,6 +704,21 @@ def formulas(run, repo):
         run.check(ok, 'REF.formula', 'pmutt.parse_formula', label,
                   '%s: %s parses to %s' % (label, show(formula, 100), show(r.d if isinstance(r, DictV) else r, 120)),
                   pm, fn, sample='parse_formula: ' + label)
+    # every call gives the caller a dictionary of its own: what the caller does to it is not seen by the next call
+    for formula, want in (('CH3CH2OH', {'C': C(2), 'H': C(6), 'O': C(1)}),
+                          (el('C') + el('H') + '4', {Z + 'C': C(1), Z + 'H': C(4)})):
+        r1 = I.call_function(pm, fn, [], {'formula': formula})
+        if isinstance(r1, DictV):
+            for k in list(r1.d):
+                r1.d[k] = C(99)
+            r1.d['Xx'] = C(1)
+        r2 = I.call_function(pm, fn, [], {'formula': formula})
+        ok = isinstance(r1, DictV) and isinstance(r2, DictV) and r2 is not r1 and set(r2.d) == set(want) and \
+            all(isinstance(r2.d[k], Rat) and r2.d[k].eq(want[k]) for k in want)
+        run.check(ok, 'EFFECT.formula-state', 'pmutt.parse_formula', 'second call after the first result was modified',
+                  '%s parsed, the returned dictionary modified by the caller, parsed again: the second result is %s'
+                  % (show(formula, 60), show(r2.d if isinstance(r2, DictV) else r2, 120)), pm, fn,
+                  sample='parse_formula: second call independent of the first result')
 
 
 R_ = 'pmutt/reaction/__init__.py'
@@ -510,5 +774,53 @@ MUTANTS = [
      'edits': [(R_, "''.format(name, reaction_str))", "''.format(reaction_str, reaction_str))", 0, 2)]},
     {'name': 'unknown transition state raises without a message', 'expect': ('PATH.unknown-species', 'from_string'),
      'edits': [(R_, "                        raise KeyError(err_msg)", "                        raise KeyError")]},
+    # ---- white-box review, round 2 -------------------------------------------------------------------------------
+    {'name': 'balance of reactants and products compared to two decimals', 'expect': ('REF.balance', 'check_element_balance'),
+     'edits': [(R_, '        if reactant_elements != product_elements:\n',
+                '        if set(reactant_elements) != set(product_elements) or not all(\n'
+                '                np.isclose(reactant_elements[e], product_elements[e], rtol=0., atol=1.e-2)\n'
+                '                for e in reactant_elements):\n')]},
+    {'name': 'balance of reactants and transition state compared with the default tolerances of np.isclose',
+     'expect': ('REF.balance', 'check_element_balance'),
+     'edits': [(R_, '            if reactant_elements != TS_elements:\n',
+                '            if set(reactant_elements) != set(TS_elements) or not all(\n'
+                '                    np.isclose(reactant_elements[e], TS_elements[e]) for e in reactant_elements):\n')]},
+    {'name': 'balance check remembers that the reaction was balanced', 'expect': ('EFFECT.balance-state', 'check_element_balance'),
+     'edits': [(R_, '        reactant_elements = _count_elements(self.reactants,\n'
+                    '                                            self.reactants_stoich)\n',
+                '        if getattr(self, "_elements_balanced", False):\n            return\n'
+                '        reactant_elements = _count_elements(self.reactants,\n'
+                '                                            self.reactants_stoich)\n'),
+               (R_, "                           ''.format(reactant_elements, TS_elements))\n                raise ValueError(err_msg)\n",
+                "                           ''.format(reactant_elements, TS_elements))\n                raise ValueError(err_msg)\n"
+                "        self._elements_balanced = True\n")]},
+    {'name': 'repeated species looked up before the blank after the coefficient is stripped', 'expect': ('REF.parse', 'from_string'),
+     'edits': [(R_, '            specie = specie[trim_len:].strip()\n', '            specie = specie[trim_len:]\n'),
+               (R_, '            species.append(specie)\n            stoichiometry.append(specie_stoich)',
+                '            species.append(specie.strip())\n            stoichiometry.append(specie_stoich)')]},
+    {'name': 'coefficient regex accepts an exponent', 'expect': ('TABLE.roundtrip', 'Reaction.from_string'),
+     'edits': [(R_, r"re.search(r'^\d+\.?\d*', specie)", r"re.search(r'^\d+\.?\d*(?:[eE][+-]?\d+)?', specie)")]},
+    {'name': 'parser removes all blanks and trims the species delimiter only', 'expect': ('TABLE.roundtrip', 'from_string'),
+     'edits': [(R_, '    # Separate states of reaction\n    reaction_states = reaction_str.split(reaction_delimiter)\n',
+                "    reaction_str = reaction_str.replace(' ', '')\n    species_delimiter = species_delimiter.strip()\n"
+                '    reaction_states = reaction_str.split(reaction_delimiter)\n')]},
+    {'name': 'parser removes all blanks and trims the reaction delimiter only', 'expect': ('TABLE.roundtrip', 'from_string'),
+     'edits': [(R_, '    # Separate states of reaction\n    reaction_states = reaction_str.split(reaction_delimiter)\n',
+                "    reaction_str = reaction_str.replace(' ', '')\n    reaction_delimiter = reaction_delimiter.strip()\n"
+                '    reaction_states = reaction_str.split(reaction_delimiter)\n')]},
 ]
+MUTANTS.append(
+    {'name': 'parse_formula remembers its results', 'expect': ('EFFECT.formula-state', 'parse_formula'),
+     'edits': [('pmutt/__init__.py', "    elements_tuples = re.findall(r'([A-Z][a-z]*)(\\d*)', formula)\n    elements = {}\n",
+                "    if formula in _FORMULAS:\n        return _FORMULAS[formula]\n"
+                "    elements_tuples = re.findall(r'([A-Z][a-z]*)(\\d*)', formula)\n"
+                "    elements = _FORMULAS[formula] = {}\n"),
+               ('pmutt/__init__.py', "def parse_formula(formula):\n", "_FORMULAS = {}\n\n\ndef parse_formula(formula):\n")]})
+# armed together with the instances it needs (see counter_model_drops_zero)
+ZERO_COUNT_MUTANT = {
+    'name': 'element totals kept in a plain dict (a count of zero survives)', 'expect': ('REF.balance', 'check_element_balance'),
+    'edits': [(R_, '    element_count = Counter()\n', '    element_count = {}\n'),
+              (R_, '            element_count += Counter({element: coeff * stoich_specie})\n',
+               '            element_count[element] = (element_count.get(element, 0.)\n'
+               '                                      + coeff * stoich_specie)\n')]}
 EQUIV = []
